@@ -31,12 +31,17 @@ confirmed = dict(
     demo_with_patch=verdict('--- demo with patch', 'FAILED'),
     full_suite_with_patch=verdict('--- full suite with patch', 'ok'),
 )
-# detection: apply to /repo, run the check, undo
-subprocess.run(['git', '-C', '/repo', 'apply', dst + '/patch.diff'], check=True)
+# detection: apply to a scratch worktree of /repo's HEAD (never to /repo itself), run the check there, undo
+WT = os.environ.get('VERIF_SCRATCH_WT', '/tmp/wt2')
+head = subprocess.run(['git', '-C', '/repo', 'rev-parse', 'HEAD'], capture_output=True, text=True).stdout.strip()
+subprocess.run(['git', '-C', WT, 'checkout', '-q', '--detach', head], check=True)
+subprocess.run(['git', '-C', WT, 'checkout', '-q', '--', '.'], check=True)
+subprocess.run(['git', '-C', WT, 'apply', dst + '/patch.diff'], check=True)
 try:
-    p = subprocess.run(['./check', prop, 'quick'], cwd='/verif', capture_output=True, text=True, env=dict(os.environ, VERIF_EVIDENCE='/tmp/vx-seed-evidence'))
+    p = subprocess.run(['./check', prop, 'quick'], cwd='/verif', capture_output=True, text=True,
+                       env=dict(os.environ, VERIF_REPO=WT, VERIF_BUILD='/tmp/vx-seed-build', VERIF_EVIDENCE='/tmp/vx-seed-evidence'))
 finally:
-    subprocess.run(['git', '-C', '/repo', 'checkout', '--', '.'], check=True)
+    subprocess.run(['git', '-C', WT, 'checkout', '-q', '--', '.'], check=True)
 lines = [l for l in p.stdout.split('\n') if l.startswith(('VIOLATION', 'UNDECIDED'))]
 det = dict(check='./check %s quick' % prop, exit_code=p.returncode,
            result=('detected' if p.returncode == 1 else 'undecided' if p.returncode == 2 else 'missed'),
